@@ -1577,7 +1577,7 @@ impl GRLParser {
         }
 
         // Check for compound assignment operators first (+=, -=, etc.)
-        if let Some(plus_eq_pos) = trimmed.find("+=") {
+        if let Some(plus_eq_pos) = Self::find_outside_strings(trimmed, "+=") {
             // Append operator: Field += Value
             let field = trimmed[..plus_eq_pos].trim().to_string();
             let value_str = trimmed[plus_eq_pos + 2..].trim();
@@ -1587,7 +1587,7 @@ impl GRLParser {
         }
 
         // Assignment: Field = Value
-        if let Some(eq_pos) = trimmed.find('=') {
+        if let Some(eq_pos) = Self::find_outside_strings(trimmed, "=") {
             let field = trimmed[..eq_pos].trim().to_string();
             let value_str = trimmed[eq_pos + 1..].trim();
             let value = self.parse_value(value_str)?;
@@ -1756,6 +1756,28 @@ impl GRLParser {
         }
 
         Ok(args)
+    }
+
+    /// Byte offset of the first occurrence of `pattern` that is outside every string literal
+    fn find_outside_strings(text: &str, pattern: &str) -> Option<usize> {
+        let mut quote: Option<char> = None;
+        for (i, ch) in text.char_indices() {
+            match quote {
+                Some(q) => {
+                    if ch == q {
+                        quote = None;
+                    }
+                }
+                None => {
+                    if ch == '"' || ch == '\'' {
+                        quote = Some(ch);
+                    } else if text[i..].starts_with(pattern) {
+                        return Some(i);
+                    }
+                }
+            }
+        }
+        None
     }
 
     /// Split an argument list at the commas that are outside string literals
